@@ -509,7 +509,7 @@ class SliceSpec(SerdeSpec):
                    'everything reachable from the start vertex is present (precondition of the property)',
                    'fixed hash keys (two key sets: they change the order in which the work list is drained)',
                    'built with the nightly toolchain and -Zbuild-std']
-    bounds = 'quick: N=2, capacity 3: every edge structure (343) for slice_some from vertex 0 is NOT run; a curated set of 30 structures (chains, cycles, shared targets, diamonds, rejected-then-accepted targets) x start vertices, capacity 4 for the diamond shapes; thorough: all 343 structures of capacity 3 x 3 start vertices, and 60 of capacity 4'
+    bounds = 'N=2: quick: ALL 343 edge structures of capacity 3 (up to two edges per vertex, no self loops; one start vertex each, every start for ten curated shapes), 45 structures of capacity 4, label kinds alpha / greek / str / two constant-label families rotating, two hash-key sets; thorough: all 343 x every start vertex + slice(), 600 structures of capacity 4 incl. any-kind labels, 150 structures with N=3'
 
     def __init__(s):
         GraphSpec.__init__(s, [], "slice(v) and slice_some(v, p) executed on the IR with a symbolic predicate: the result's present vertices are exactly the closure of v under accepted edges (under their ids), it holds every accepted edge between kept vertices and no edge the source lacks, it satisfies the representation invariant, the source is byte-identical, the call returns on cyclic structures")
